@@ -237,7 +237,7 @@ fn ob_c04_mpsc_gate_sender() { gate_sender(); }
 #[kani::unwind(10)]
 fn ob_c04_mpsc_gate_async_sender() { gate_async_sender(); }
 
-// @obligation id=c04.mpsc.gate.Receiver props=C04,C01 kind=hist tier=probe bound="bounded(1) built with one-slot stub chunks (no slot is touched), wake_all_senders/wake_all_receivers cut (no-op stubs); payloads any u8; closed Receiver: every receive form incl. recv_timeout, second close, drop"
+// @obligation id=c04.mpsc.gate.Receiver props=C04,C01 kind=hist tier=quick bound="bounded(1) built with one-slot stub chunks (no slot is touched), wake_all_senders/wake_all_receivers cut (no-op stubs); payloads any u8; closed Receiver: every receive form incl. recv_timeout, second close, drop"
 #[kani::proof]
 #[kani::stub(std::thread::current::current, crate::verif_k_stubs::stub_thread_current)]
 #[kani::stub(parking_lot::RawMutex::lock_slow, crate::verif_k_stubs::stub_lock_slow)]
